@@ -385,6 +385,22 @@ fn build_join(
             replace_qualified_name(filter, &all_correlated_cols, &alias).map(Some)
         })?;
 
+    // `<expr> NOT IN (subquery)` where `<expr>` references no columns (e.g. a
+    // literal) has no left-side join key, so it cannot be evaluated by the
+    // null-aware anti join: the equality would stay a plain join filter, be
+    // pushed into the subquery and lose SQL's three-valued `NOT IN` semantics.
+    // Use the equivalent two-valued form instead: the row is removed iff some
+    // subquery row makes `<expr> = <subquery column>` TRUE or NULL.
+    let constant_not_in = join_type == JoinType::LeftAnti
+        && matches!(
+            in_predicate_opt,
+            Some(Expr::BinaryExpr(BinaryExpr {
+                left,
+                op: Operator::Eq,
+                ..
+            })) if left.column_refs().is_empty()
+        );
+
     let join_filter = match (join_filter_opt, in_predicate_opt.cloned()) {
         (
             Some(join_filter),
@@ -396,7 +412,11 @@ fn build_join(
         ) => {
             let right_col = create_col_from_scalar_expr(&right, alias)?;
             let in_predicate = Expr::eq(left.deref().clone(), Expr::Column(right_col));
-            in_predicate.and(join_filter)
+            if constant_not_in {
+                in_predicate.is_not_false().and(join_filter)
+            } else {
+                in_predicate.and(join_filter)
+            }
         }
         (Some(join_filter), _) => join_filter,
         (
@@ -408,8 +428,12 @@ fn build_join(
             })),
         ) => {
             let right_col = create_col_from_scalar_expr(&right, alias)?;
-
-            Expr::eq(left.deref().clone(), Expr::Column(right_col))
+            let in_predicate = Expr::eq(left.deref().clone(), Expr::Column(right_col));
+            if constant_not_in {
+                in_predicate.is_not_false()
+            } else {
+                in_predicate
+            }
         }
         (None, None) => lit(true),
         _ => return Ok(None),
@@ -471,6 +495,7 @@ fn build_join(
     // null-aware semantics because NULLs cannot exist in the data.
     let null_aware = join_type == JoinType::LeftAnti
         && in_predicate_opt.is_some()
+        && !constant_not_in
         && join_keys_may_be_null(&join_filter, left.schema(), sub_query_alias.schema())?;
 
     // join our sub query into the main plan
